@@ -11,7 +11,8 @@ SPEC = dict(
          '(flip) every single-bit change of a small signed file; (lookup) ALL publication-time sequences up to a length over times {1..5} x query times 0..6 and none x every lookup function, certificate ids present / absent / altered / prefix / extended. '
          'Oracle: reference structure rule, offset of the signature record, reference trust decision, reference scan. '
          'Constraint sets 7..9: an attribute the signer\'s subject lacks (after a matching constraint expecting the same string; alone) and a second matching constraint. '
-         'After a publication record was removed in place and the file serialized again, the signed range ends where the signature record of the new bytes starts.',
+         'After a publication record was removed in place and the file serialized again, the signed range ends where the signature record of the new bytes starts.'
+         ' Look-up by record (KSI_PublicationsFile_findPublication): time and imprint of every record of the file, also behind a record with the same time, and foreign imprints.',
     bounds=dict(quick='record sequences len<=5 (9331 x variants); bit flips: 2 bits per byte of the file; publication-time sequences len<=3',
                 thorough='record sequences len<=6; every bit of the file; publication-time sequences len<=4'),
     technique='bounded-exhaustive enumeration of record sequences, trust configurations, bit flips and lookup tables against a reference structure rule / trust decision / scan',
